@@ -3,6 +3,8 @@ Props/C08 — Rock Ridge system use layout.
   * names of ANY length: the NM pieces placed in the directory record and the continuation area concatenate back
     to the name (`addName_concat`), each piece fits its entry (≤ 250 bytes, entry ≤ 255), continuation flags
     mark every piece but the last;
+  * symbolic links with ANY target: the SL entries in the directory record and the continuation area, read in order by
+    the RRIP rules, give back the target (`sl_reassembles`), however components are cut at record boundaries;
   * whatever is put into the directory record keeps it within 254 bytes (`put_cur_le`);
   * continuation block allocator: the offset returned overlaps no existing entry and lies inside the block,
     and "no gap" is reported only when there is none of that size at the scanned positions (`findGap_sound`);
@@ -10,6 +12,7 @@ Props/C08 — Rock Ridge system use layout.
 -/
 import Pycdlib.Model.Susp
 import Pycdlib.Generated.Susp
+import Pycdlib.Proofs.Symlink
 namespace Pycdlib.Susp
 
 theorem chunks_concat (fuel : Nat) (l : Bytes) (h : l.length < fuel) : (chunks250 fuel l).flatten = l := by
@@ -184,5 +187,19 @@ theorem susp_consts_tie :
 example : ((rrNew false .v109 (List.replicate 300 97) none false false false 48).map
     fun r => (r.hasCE, (nmName (r.dr ++ r.ce)).length, r.dr.length, r.ce.length)) = some (true, 300, 2, 3) := by
   decide +kernel
+
+end Pycdlib.Susp
+
+namespace Pycdlib.Susp
+
+/-- **C08 (symbolic links, every target)**: the SL entries emitted for a symbolic link reassemble to its target.
+Proof in `Proofs/Symlink.lean` (invariant of the component loop over every split across records). -/
+theorem sl_reassembles (hasCE : Bool) (a a' : Acc) (target : Bytes) (ht : target ≠ [])
+    (h : newSymlink hasCE a target = some a') :
+    ∃ dr ce, a'.dr = a.dr ++ dr ∧ a'.ce = a.ce ++ ce ∧ slTarget (allComps (dr ++ ce)) = target :=
+  symlink_reassembles hasCE a a' target ht h
+
+/-- non-vacuity: a 300-byte component followed by `..` does not fit the directory record and is cut twice -/
+example : (newSymlink true { cur := 200 } (List.replicate 300 120 ++ [47, 46, 46])).isSome = true := by decide +kernel
 
 end Pycdlib.Susp
